@@ -825,19 +825,31 @@ func (in *Interp) powerLoss() {
 			pages[pn] = append([]*sym.Term(nil), pg...)
 		}
 		tmp := &inode{pages: pages}
-		for wi, w := range ino.pending {
-			kept := in.input(fmt.Sprintf("kept_ino%d_w%d", ino.id, wi), sym.SBool, nil, nil)
-			for i, c := range w.cells {
-				off := w.off + int64(i)
-				old := tmp.get(off)
-				nc, oc := c, old
-				if nc == nil {
-					nc = in.zeroB
+		if in.opts["powerloss"] == 2 {
+			// ordered mode: the writes of one file reach the disk in order, a suffix of them is lost
+			// (case split over the number of surviving writes; contents stay concrete)
+			nk := in.choice(len(ino.pending) + 1)
+			in.observe[fmt.Sprintf("kept_prefix_ino%d", ino.id)] = fmt.Sprintf("%d of %d", nk, len(ino.pending))
+			for _, w := range ino.pending[:nk] {
+				for i, c := range w.cells {
+					tmp.set(w.off+int64(i), c)
 				}
-				if oc == nil {
-					oc = in.zeroB
+			}
+		} else {
+			for wi, w := range ino.pending {
+				kept := in.input(fmt.Sprintf("kept_ino%d_w%d", ino.id, wi), sym.SBool, nil, nil)
+				for i, c := range w.cells {
+					off := w.off + int64(i)
+					old := tmp.get(off)
+					nc, oc := c, old
+					if nc == nil {
+						nc = in.zeroB
+					}
+					if oc == nil {
+						oc = in.zeroB
+					}
+					tmp.set(off, B.Ite(kept, nc, oc))
 				}
-				tmp.set(off, B.Ite(kept, nc, oc))
 			}
 		}
 		ino.pages = tmp.pages
